@@ -33,7 +33,7 @@ def main():
     if a.count is not None:
         cfg["count"] = a.count
     cfg["workers"] = min(cfg.get("workers", 16), os.cpu_count() or 1)
-    return simdrv.run_check(prop, spec["target"], a.tier, cfg, spec["describe"])
+    return simdrv.run_check(prop, spec["target"], a.tier, cfg, spec["describe"], spec.get("extra_targets"))
 
 
 if __name__ == "__main__":
